@@ -32,6 +32,9 @@ type Exec struct {
 	Timeout time.Duration // per-operation watchdog (default 60 s)
 	Hung    bool
 	Opts    []client.RequestOption
+	// PanicClass (optional) maps a panic of a request to a signature and message of its own, for
+	// defects that surface in many frames; "" keeps the default panic/<first defradb frame>.
+	PanicClass func(req, stack string) (sig, msg string)
 
 	lat    []time.Duration // latencies of the last requests (watchdog scaling only, never an oracle)
 	median time.Duration
@@ -179,8 +182,13 @@ func (e *Exec) Do(req string, opts ...client.RequestOption) Result {
 	e.R.Count("requests", 1)
 	if raw.panic != "" {
 		e.R.Count("requests_panicked", 1)
-		e.R.Violate("panic/"+PanicSig(raw.panic), "request made the database panic: "+FirstLine(raw.panic),
-			map[string]any{"request": req, "stack": raw.panic, "store": e.N.Opts.Store})
+		sig, msg := "panic/"+PanicSig(raw.panic), "request made the database panic: "+FirstLine(raw.panic)
+		if e.PanicClass != nil {
+			if s, m := e.PanicClass(req, raw.panic); s != "" {
+				sig, msg = s, m+": "+FirstLine(raw.panic)
+			}
+		}
+		e.R.Violate(sig, msg, map[string]any{"request": req, "stack": raw.panic, "store": e.N.Opts.Store})
 		return Result{Panic: raw.panic}
 	}
 	if len(raw.errs) > 0 {
